@@ -52,6 +52,26 @@ const INT_ALPHA: [i64; 17] = [
     i64::MIN + 1,
 ];
 
+fn diff_structured_ints() -> Vec<Vec<i64>> {
+    let firsts = [0i64, 1_700_000_000_000];
+    let ds = [0i64, 1, 127, 128, 1000, 32767, 32768, 60_000, (1 << 31) - 1, 1 << 31, 3_000_000_000];
+    let dds = [0i64, 1, -1, 127, 128, -128, -129, 300, -400, 32767, 32768, -32768, -32769, 100_000, (1 << 31) - 1, 1 << 31, -(1 << 31) - 1];
+    let mut v = vec![];
+    for x0 in firsts {
+        for d in ds {
+            for dd1 in dds {
+                for dd2 in dds {
+                    let x1 = x0 + d;
+                    let x2 = x1 + d + dd1;
+                    let x3 = x2 + d + dd1 + dd2;
+                    v.push(vec![x0, x1, x2, x3]);
+                }
+            }
+        }
+    }
+    v
+}
+
 fn float_alpha() -> Vec<u64> {
     vec![
         0.0f64.to_bits(),
@@ -383,7 +403,7 @@ impl Engine for C16 {
         let (il, fl_) = if tier == Tier::Quick { (4, 3) } else { (5, 4) };
         Describe {
             level: "model_checking",
-            rule: format!("(1) every i64 sequence of length 0..{} over 17 values (0, +-1, the i8 / i16 / i32 delta boundaries, +-2^62, i64::MIN, i64::MIN+1, i64::MAX - so that deltas and second differences fall on every side of the layout thresholds and overflow i64) through QueryResponse::serialize / deserialize; (2) every f64 sequence of length 0..{} over 13 bit patterns (+-0, 1, next-after-1, -1, +-inf, two NaN payloads, the reserved NULL NaN, subnormal, f64::MAX, 0.1) x max_regret {{0,1,100}} x mantissa {{None, 0, 1, 12, 23, 51, 52}} through xor_float::double encode / decode (bit exact, or sign + exponent + requested mantissa bits); (3) every table of <= 3 rows x 1 column (and 2 columns with a rotating partner) over 9 cell values through the wire schema and the row API: serialize / deserialize equal, decoded rows equal the supplied rows; (4) 5 multi-column query responses of every column kind. Non-trivial: sequences of length >= 2; distinct by case.", il, fl_),
+            rule: format!("(1) every i64 sequence of length 0..{} over 17 values (0, +-1, the i8 / i16 / i32 delta boundaries, +-2^62, i64::MIN, i64::MIN+1, i64::MAX - so that deltas and second differences fall on every side of the layout thresholds and overflow i64), plus every length-4 sequence built from its differences (2 first values x 11 first differences x 17 x 17 second differences at the i8 / i16 / i32 boundaries: 6 358 sequences, every layout selected with values whose differences are NOT themselves boundary values), through QueryResponse::serialize / deserialize; (2) every f64 sequence of length 0..{} over 13 bit patterns (+-0, 1, next-after-1, -1, +-inf, two NaN payloads, the reserved NULL NaN, subnormal, f64::MAX, 0.1) x max_regret {{0,1,100}} x mantissa {{None, 0, 1, 12, 23, 51, 52}} through xor_float::double encode / decode (bit exact, or sign + exponent + requested mantissa bits); (3) every table of <= 3 rows x 1 column (and 2 columns with a rotating partner) over 9 cell values through the wire schema and the row API: serialize / deserialize equal, decoded rows equal the supplied rows; (4) 5 multi-column query responses of every column kind. Non-trivial: sequences of length >= 2; distinct by case.", il, fl_),
             assumptions: vec!["the row API widens an integer pushed into a float column (documented)".into(), "server-side column typing of mixed columns is exercised by C17".into()],
             bounds: json!({"int_alphabet": INT_ALPHA.len(), "int_max_len": il, "float_alphabet": float_alpha().len(), "float_max_len": fl_, "event_batches": event_batches().len()}),
             states_meaning: "distinct encoder inputs round-tripped",
@@ -428,6 +448,16 @@ impl Engine for C16 {
                 out.sample(json!({"int_sequence": s}));
             }
             record(out, "ints", n as u64, C16Case::Ints(s), bad, n >= 2);
+        }
+        // integer sequences built from their differences: first value x first difference x two second differences, each at the
+        // boundaries of the i8 / i16 / i32 ranges that select the response layout
+        for s in diff_structured_ints() {
+            idx += 1;
+            if idx % nshards != shard {
+                continue;
+            }
+            let bad = check_ints(&s);
+            record(out, "ints", s.len() as u64, C16Case::Ints(s), bad, true);
         }
         let fa = float_alpha();
         let mantissas: Vec<Option<u32>> = vec![None, Some(0), Some(1), Some(12), Some(23), Some(51), Some(52)];
